@@ -4,7 +4,7 @@ from spec import M, finite, r2
 import indcommon as ic
 
 PROP = "C11"
-LEAN_MODS = ["Cte.Props.C11"]
+LEAN_MODS = ["Cte.Props.C11", "Cte.Props.C11Classes"]
 HARNESS = "c11"
 N = {"quick": 200, "thorough": 5000}
 CORRESPONDENCES = ["global props: a_ref, vol_env_gross, vol_env_net, vol_env_inh_net, compactness, global_ventilation_rate (both implementations)",
